@@ -77,4 +77,17 @@ example : ∃ r' g', Relation.whileCorrection ⟨["x", "y"],
       .ok (r', g') ∧ DG.GInv g' :=
   while_correction_never_raises _ [] DG.GInv.nil
 
+/-- … and so does the for correction, for a variable of the relation (for any other name the
+    code raises `ValueError` before touching anything: `Relation.loopCorrection` starts with the
+    index lookup) -/
+theorem loop_correction_never_raises (r : Relation) (x : String) (hx : x ∈ r.vars) (g : DG.Graph)
+    (hg : DG.GInv g) : ∃ r' g', Relation.loopCorrection r x g = .ok (r', g') ∧ DG.GInv g' :=
+  WriteSet.loopCorrection_total r x hx g hg
+
+example : ∃ r' g', Relation.loopCorrection ⟨["x", "y"],
+    [[[⟨.w, [(0, 0)]⟩, ⟨.m, [(1, 0)]⟩], [⟨.p, [(2, 0)]⟩]], [[⟨.p, [(3, 1)]⟩], [⟨.m, []⟩]]]⟩ "y" [] =
+      .ok (r', g') ∧ DG.GInv g' :=
+  loop_correction_never_raises _ "y" (by decide) [] DG.GInv.nil
+example : Relation.loopCorrection ⟨["x"], [[[⟨.m, []⟩]]]⟩ "z" [] = .error "ValueError" := by rfl
+
 end Mwp.Props.C06
